@@ -13,7 +13,7 @@ import time
 import z3
 
 from .. import driver, extract, field, game
-from ..symrt import Ctx, active, call, explore, term
+from ..symrt import Ctx, active, call, explore, per_path, term
 from .computil import field_rec, scale_of
 from .predutil import rank_data_contract
 from . import c01
@@ -63,8 +63,9 @@ def unit_rate(model, sizes, mode, ranks):
     fn = f"{model}.rate"
     ctx, S, mA, mB, teams, k = _world(model, sizes, mode)
     with active(ctx):
-        oa = call(mA.rate, teams("A"), ranks=list(ranks) if ranks else None)
-        ob = call(mB.rate, teams("B"), ranks=list(ranks) if ranks else None)
+        tA, tB = per_path(teams("A")), per_path(teams("B"))
+        oa = ctx.merged(lambda i: call(mA.rate, tA(i), ranks=list(ranks) if ranks else None))
+        ob = ctx.merged(lambda i: call(mB.rate, tB(i), ranks=list(ranks) if ranks else None))
     rp = c01._std_replay(model, sizes, ranks, "default", scale_of(model))
     rp["kind"] = "c16_rate"
     rp["mode"] = mode
@@ -102,7 +103,8 @@ def unit_predict(model, sizes, mode):
     res = {}
     with active(ctx):
         for op in PREDICTS:
-            res[op] = (call(getattr(mA, op), teams("A")), call(getattr(mB, op), teams("B")))
+            tA, tB = per_path(teams("A")), per_path(teams("B"))
+            res[op] = (ctx.merged(lambda i, op=op, tA=tA: call(getattr(mA, op), tA(i))), ctx.merged(lambda i, op=op, tB=tB: call(getattr(mB, op), tB(i))))
     P = field.Prover(ctx.hyps(), list(ctx.facts.values()))
     for op in PREDICTS:
         oa, ob = res[op]
